@@ -777,6 +777,9 @@ func (vals *ValidatorSet) VerifyCommitLightTrusting(chainID string, commit *Comm
 	if trustLevel.Denominator == 0 {
 		return errors.New("trustLevel has zero Denominator")
 	}
+	if trustLevel.Numerator > math.MaxInt64 || trustLevel.Denominator > math.MaxInt64 {
+		return errors.New("trustLevel numerator and denominator must not exceed MaxInt64")
+	}
 
 	var (
 		talliedVotingPower int64
